@@ -1,10 +1,10 @@
 \* C19 quick, the dimension "what was sent": the repaired initiator put a PROPER subset of its table on the wire
-\* (3-version window, one magic per table), against every reply of the adversarial responder
+\* (3-version window, magics per version as in HandshakeAdv.cfg), against every reply of the adversarial responder
 CONSTANTS
   W = 3
   CliMagics = {1, 2}
   SrvMagics = {1}
-  CliPerVersion = FALSE
+  CliPerVersion = TRUE
   SrvPerVersion = FALSE
   MaxSize = 3
   QCases <- AdvQ
